@@ -936,8 +936,9 @@ FSE_SIG = "psi0-taken-at-t=0-instead-of-tlist[0]"
 
 
 def fsesolve_witness(ctx):
-    """Replay of the witness of C10_fsesolve_initial_state_refuted on the real
-    implementation: a driven qubit, time list starting at 0.5."""
+    """The witness that refuted the rule before a3f3594, kept as a regression
+    case on the real implementation: a driven qubit, time list starting at
+    0.5; the state at tlist[0] must be psi0 (C10_fsesolve_initial_state)."""
     import qutip
     w = 2.0
     T = 2 * np.pi / w
@@ -988,11 +989,15 @@ def run_fsesolve_corr(ctx, rng, ncases):
         ts = [t0]
         for _ in range(rng.choice([0, 1, 2, 4])):
             ts.append(ts[-1] + rng.randint(1, 4))
+        if rng.random() < 0.05:
+            ts = []                                 # malformed: no tlist[0]
         fake = Fake()
         try:
             r = qutip.fsesolve(fake, qutip.Qobj([[complex(v)]]), [float(t) for t in ts],
                                options={"store_states": True, "normalize_output": False})
             got.append([int(round(x.full()[0, 0].real)) for x in r.states])
+        except IndexError:
+            got.append(None)
         except Exception as e:          # noqa
             got.append("raise %s" % e)
         cases.append((v, ts))
@@ -1001,38 +1006,31 @@ def run_fsesolve_corr(ctx, rng, ncases):
     try:
         vals = vlib.coq_eval_values(
             "cases_C10f", hdr,
-            ["(toy_fsesolve %s %s, toy_fsesolve_at_t0 %s %s)" % (
-                vlib.cz(v), vlib.clist(ts, vlib.cz), vlib.cz(v), vlib.clist(ts, vlib.cz))
-             for v, ts in cases], chunk=400)
+            ["toy_fsesolve %s %s" % (vlib.cz(v), vlib.clist(ts, vlib.cz)) for v, ts in cases],
+            chunk=400)
     except RuntimeError as e:
         ctx.violation("corr:C10:fsesolve-model-eval", "coqc", "fsesolve model evaluation failed",
                       {"log": str(e)}, found_input=False)
         return
-    # Both variants of Model/C10_floquet.v carry theorems (the code as it is:
-    # C10_fsesolve_initial_state_refuted / _partial; the one-token repair:
-    # C10_fsesolve_repaired).  The implementation must follow one of them on
-    # every case; which one is recorded in the evidence.
-    pairs = [vlib.parse_coq_value(v) for v in vals]
-    fits_cur = all(list(p[0]) == g for p, g in zip(pairs, got))
-    fits_rep = all(list(p[1]) == g for p, g in zip(pairs, got))
-    variant = "as-is (psi0 expanded at t=0)" if fits_cur else (
-        "repaired (psi0 expanded at tlist[0])" if fits_rep else "neither")
-    ctx.cov["input_distribution"]["fsesolve_model_variant_followed"] = variant
-    for (v, ts), g, pr in zip(cases, got, pairs):
+    nonzero_start = 0
+    for (v, ts), g, val in zip(cases, got, vals):
+        m = vlib.parse_coq_value(val)
+        model = None if m is None else list(m[1])
         ctx.count_case(("fsesolve", v, tuple(ts)), nontrivial=len(ts) > 1)
         ctx.cov["traces_validated_against_impl"] += 1
-        if variant == "neither" and list(pr[0]) != g and list(pr[1]) != g:
-            ctx.violation("corr:floquet.fsesolve", "time-bookkeeping-differs",
-                          "fsesolve follows neither to_floquet_basis(psi0[, tlist[0]]) followed by "
-                          "from_floquet_basis(., t) for t in tlist",
-                          {"kind": "fsesolve_corr", "psi0": v, "tlist": ts, "impl": g,
-                           "model_as_is": list(pr[0]), "model_repaired": list(pr[1])},
+        nonzero_start += 1 if (ts and ts[0] != 0) else 0
+        if model != g:
+            first = (isinstance(g, list) and ts and g and g[0] != v)
+            ctx.violation("corr:floquet.fsesolve",
+                          "initial-state-not-returned" if first else "time-bookkeeping-differs",
+                          "fsesolve does not return the states from_floquet_basis("
+                          "to_floquet_basis(psi0, tlist[0]), t) for t in tlist"
+                          + (": the state at tlist[0] is not psi0" if first else ""),
+                          {"kind": "fsesolve_corr", "psi0": v, "tlist": ts, "impl": g, "model": model},
                           found_input=True)
-    if variant.startswith("repaired"):
-        ctx.notes.append("fsesolve follows the repaired model: the positive theorem "
-                         "C10_fsesolve_repaired applies; C10_fsesolve_initial_state_refuted "
-                         "describes the code before the repair")
-    ctx.cov["input_distribution"]["fsesolve_trace_cases"] = len(cases)
+    ctx.cov["input_distribution"]["fsesolve_trace"] = {
+        "cases": len(cases), "time_list_not_starting_at_0": nonzero_start,
+        "empty_time_list": sum(1 for _, ts in cases if not ts)}
 
 
 def check_floquet_br_case(sysd):
